@@ -36,6 +36,21 @@ func (purePort) exec(f []string) []string {
 			return []string{"dec err"} // texts are never compared
 		}
 		return []string{fmt.Sprintf("dec ok %s %d", hexs(p), seq)}
+	case "rload": // rload <present 0|1> <raw-hex|-> : Load through the integrity layer
+		var raw []byte
+		if f[2] != "-" {
+			raw = unhex(f[2])
+		} else if f[1] == "1" {
+			raw = []byte{} // a record without content: present, not nil
+		}
+		v, err := mqtt.VerifRuggedLoad(raw, f[1] == "1")
+		switch {
+		case err != nil:
+			return []string{"rload err"}
+		case v == nil:
+			return []string{"rload absent"}
+		}
+		return []string{"rload ok " + hexs(v)}
 	case "strcheck": // strcheck <hex>
 		return []string{"strcheck " + denyClass(mqtt.VerifStringCheck(string(unhex(f[1]))))}
 	case "topiccheck":
